@@ -124,8 +124,9 @@ def gen_enum_case(g, cid, opts=None):
             v.t_only_kref = g.mark() if (g.chance(0.4) and not (opts or {}).get("uniform")) else None
         ec.vs.append(v)
     # From-only sub-family: positional counterpart payloads addressed by explicit index, in permuted order (`#[from(1, expr)]`)
-    if (opts or {}).get("permuted", g.chance(0.2)):
-        ec.from_only = True
+    pinto = (opts or {}).get("permuted_into", False)   # region 'permuted_into': the Into kinds are requested as well (open finding F39)
+    if pinto or (opts or {}).get("permuted", g.chance(0.2)):
+        ec.from_only = not pinto
         for v in ec.vs:
             mapped = [f for f in v.fields if f.desig != "ghost"]
             if v.tshape != "tuple" or len(mapped) < 2 or len(mapped) != len(v.fields) or v.t_only:
@@ -137,8 +138,11 @@ def gen_enum_case(g, cid, opts=None):
                 f.tname = p_
                 if f.desig == "same" and g.chance(0.5):
                     f.desig = "expr"
+                if pinto:
+                    f.ty = "i32"      # same-typed, so that the mis-wired Into still compiles and the From impls of the program stay checked
             v.permuted = True
-            ec.flags.add("permuted")
+            v.permuted_from_only = not pinto
+            ec.flags.add("permuted" if not pinto else "permuted_into")
     # S-only (ghost) variants
     ec.default_case = None
     if g.chance(0.35):
@@ -201,7 +205,7 @@ def payload_attrs(v, f, fallible=False, flip=0):
     # owned kinds
     n_owned = "try_map_owned" if (fallible and flip & 1) else "map_owned"
     n_ref = "try_map_ref" if (fallible and flip & 2) else "map_ref"
-    if v.permuted:
+    if v.permuted and getattr(v, "permuted_from_only", True):
         n_owned, n_ref = n_owned.replace("map", "from"), n_ref.replace("map", "from")
     if f.desig == "expr":
         out.append(Instr(n_owned, "map", container=None, member=member, action=rnd_expr(f.ty, f.k_owned, "~"), braced=False))
@@ -412,6 +416,8 @@ def render_enum_module(ec, g, fallible, draws):
             if v.tshape == "unit":
                 ctor = f"T::{v.tname}"
             elif v.tshape == "tuple":
+                if v.permuted:
+                    vals.sort(key=lambda nv: nv[0])     # the designated index decides the position
                 ctor = f"T::{v.tname}(" + ", ".join(x for _, x in vals) + ")"
             else:
                 ctor = f"T::{v.tname} {{ " + ", ".join(f"{n}: {x}" for n, x in vals) + " }"
